@@ -51,7 +51,9 @@ BASES = {
     # characters Python's text layer treats as line boundaries or strips (str.splitlines separators, BOM, NBSP) are
     # ordinary value characters in RFC 5545
     "special-characters": cal(["BEGIN:VEVENT", "UID:16", "SUMMARY:a\u2028b\u0085c\x0bd\x1ce\ufefff\u00a0", "LOCATION;X-P=p\u2028q:\ufeffstart",
-                               "DESCRIPTION:lone\rCR and tab\there \u2029 end\u00a0", "END:VEVENT"]),
+                               "DESCRIPTION:lone\rCR and tab\there \u2029 end\u00a0",
+                               # text that is not in Unicode NFC stays as written (bytes and str input alike)
+                               "COMMENT;X-N=Ame\u0301lie:Cafe\u0301 \u212b \u2126 \uf900", "END:VEVENT"]),
     "journal-escapes": cal(["BEGIN:VJOURNAL", "UID:14", "DTSTAMP:20240101T000000Z", "DESCRIPTION:line one\\nline two\\; semi\\, comma", "SUMMARY:plain", "END:VJOURNAL"]),
 }
 CASINGS = ("none", "lower", "title", "alt")
